@@ -3,8 +3,10 @@ CONSTANTS MaxPre = 2 MaxN = 4
   PreAlphabet <- AlphaSmall
   Accs <- AccsSmall
   Posts <- PostsSmall
-  Pairs = {TRUE, FALSE}
+  FlowKinds = {"bare", "pairs", "ctx"}
   Drivers = {"fill"}
+  Places = {"alone"}
+  CopyMode = "per_branch"
   Bufs <- BufOne
 INVARIANT DriversAgree
 INVARIANT FillReaches
